@@ -8,8 +8,9 @@ Local Open Scope N_scope.
 
 Definition coh (st : lstate) : Prop :=
   forall a b r, cache_get (a, b) (l_fcc st) = Some r -> r = fcp (l_vals st) (l_idx st) a b.
-Definition R (st st' : lstate) : Prop := exists c, st' = set_fcc st c.
-Lemma R_refl st : R st st. Proof. exists (l_fcc st). destruct st; reflexivity. Qed.
+(* the two states differ in the forkless-cause cache and in the build counter only *)
+Definition R (st st' : lstate) : Prop := exists c n, st' = set_fcc (set_ctr st n) c.
+Lemma R_refl st : R st st. Proof. exists (l_fcc st), (l_ctr st). destruct st; reflexivity. Qed.
 Lemma coh_nil st : l_fcc st = [] -> coh st.
 Proof. intros H a b r G. rewrite H in G. discriminate. Qed.
 
@@ -41,10 +42,10 @@ Qed.
 Lemma fc_cached_agree st st' a b : R st st' -> coh st -> coh st' ->
   agree (fc_cached cap st a b) (fc_cached cap st' a b).
 Proof.
-  intros [c ->] H H'. destruct (fc_cached_coh st a b H) as [A1 [[c1 A2] A3]].
-  destruct (fc_cached_coh (set_fcc st c) a b H') as [B1 [[c2 B2] B3]].
+  intros [c [n ->]] H H'. destruct (fc_cached_coh st a b H) as [A1 [[c1 A2] A3]].
+  destruct (fc_cached_coh (set_fcc (set_ctr st n) c) a b H') as [B1 [[c2 B2] B3]].
   unfold agree. split; [rewrite A1, B1; reflexivity|]. split; [|split; assumption].
-  rewrite A2, B2. exists c2. destruct st; reflexivity.
+  rewrite A2, B2. exists c2, n. destruct st; reflexivity.
 Qed.
 
 Tactic Notation "use_agree" hyp(H) "as" ident(o) ident(s) ident(s') ident(RR) ident(C) ident(C') :=
@@ -62,8 +63,8 @@ Qed.
 
 Lemma R_fields st st' : R st st' ->
   l_vals st' = l_vals st /\ l_idx st' = l_idx st /\ l_roots st' = l_roots st /\ l_el st' = l_el st /\
-  l_ldf st' = l_ldf st /\ l_epoch st' = l_epoch st /\ l_conf st' = l_conf st /\ l_ctr st' = l_ctr st.
-Proof. intros [c ->]. cbn. repeat split. Qed.
+  l_ldf st' = l_ldf st /\ l_epoch st' = l_epoch st /\ l_conf st' = l_conf st /\ True.
+Proof. intros [c [n ->]]. cbn. repeat split. Qed.
 
 Lemma process_root_agree st st' nr : R st st' -> coh st -> coh st' ->
   agree (process_root cap st nr) (process_root cap st' nr).
@@ -76,7 +77,7 @@ Proof.
   pose proof (observed_loop_agree (r_id nr) (filter (fun r => r_frame r =? r_frame nr - 1) (l_roots st)) st st' [] HR H H') as A.
   use_agree A as o s1 s2 RR C1 C2.
   destruct (vote_subjects (r_frame nr - el_frame (l_el st) =? 1) o nr (not_decided (l_el st)) (l_el st)) as [e el'].
-  assert (RR2 : R (set_el s1 el') (set_el s2 el')). { destruct RR as [c ->]. exists c. destruct s1; reflexivity. }
+  assert (RR2 : R (set_el s1 el') (set_el s2 el')). { destruct RR as [c [n ->]]. exists c, n. destruct s1; reflexivity. }
   assert (Cs : coh (set_el s1 el')) by (intros a b r G; eapply C1; eauto).
   assert (Cs0 : coh (set_el s2 el')) by (intros a b r G; eapply C2; eauto).
   destruct e; unfold agree; cbn [fst snd]; auto.
@@ -108,12 +109,12 @@ Definition agree3 {A} (x x' : A * list block * lstate) : Prop :=
 Lemma on_frame_decided_agree es st st' f atr : R st st' -> coh st -> coh st' ->
   agree (on_frame_decided end_block es st f atr) (on_frame_decided end_block es st' f atr).
 Proof.
-  intros HR H H'. destruct HR as [c ->]. unfold on_frame_decided, apply_atropos, cheaters_of.
-  cbn [l_conf l_idx l_vals l_epoch set_fcc].
-  destruct (dfs_confirm (confirm_fuel es) es f [atr] (l_conf st) []) as [[dl conf']|x]; [|unfold agree; cbn; repeat split; auto; exists c; reflexivity].
+  intros HR H H'. destruct HR as [c [n ->]]. unfold on_frame_decided, apply_atropos, cheaters_of.
+  cbn [l_conf l_idx l_vals l_epoch set_fcc set_ctr].
+  destruct (dfs_confirm (confirm_fuel es) es f [atr] (l_conf st) []) as [[dl conf']|x]; [|unfold agree; cbn; repeat split; auto; exists c, n; reflexivity].
   cbn [b_seal]. destruct (end_block _ _ _ _ _) as [nv|]; unfold agree; cbn [fst snd].
-  - split; [reflexivity|]. split; [apply R_refl|]. split; apply coh_nil; reflexivity.
-  - split; [reflexivity|]. split; [exists c; reflexivity|]. split; intros a b r G; cbn in *; [eapply H | eapply H']; eauto.
+  - split; [reflexivity|]. split; [exists [], n; reflexivity|]. split; apply coh_nil; reflexivity.
+  - split; [reflexivity|]. split; [exists c, n; reflexivity|]. split; intros a b r G; cbn in *; [eapply H | eapply H']; eauto.
 Qed.
 
 Lemma bootstrap_election_agree es : forall fuel st st' bl, R st st' -> coh st -> coh st' ->
@@ -187,21 +188,21 @@ Qed.
 (* Process: same verdict, same blocks, same next state up to the cache.  The two caches must be coherent
    with the index that contains the event being processed (for entries made before this call that is the
    stability of forkless cause under index growth, a consequence of C05). *)
-Theorem process_cache_transparent es st c e s' :
+Theorem process_cache_transparent es st c n e s' :
   add (l_idx st) (vev (l_vals st) e) = Some s' ->
-  coh (set_idx st s') -> coh (set_idx (set_fcc st c) s') ->
+  coh (set_idx st s') -> coh (set_idx (set_fcc (set_ctr st n) c) s') ->
   let x := process cap end_block es st e in
-  let x' := process cap end_block es (set_fcc st c) e in
+  let x' := process cap end_block es (set_fcc (set_ctr st n) c) e in
   fst (fst x) = fst (fst x') /\ snd (fst x) = snd (fst x') /\ R (snd x) (snd x').
 Proof.
-  intros Hadd H H'. cbn zeta. unfold process. cbn [l_idx l_vals set_fcc]. rewrite Hadd.
-  assert (HR : R (set_idx st s') (set_idx (set_fcc st c) s')) by (exists c; reflexivity).
+  intros Hadd H H'. cbn zeta. unfold process. cbn [l_idx l_vals set_fcc set_ctr]. rewrite Hadd.
+  assert (HR : R (set_idx st s') (set_idx (set_fcc (set_ctr st n) c) s')) by (exists c, n; reflexivity).
   pose proof (calc_frame_agree es _ _ e true HR H H') as A. use_agree A as o s s0 RR C C0.
   destruct o as [[spf fr]|x].
   - destruct (negb (a_frame e =? fr)).
-    { cbn [fst snd]. repeat split; auto. destruct RR as [c1 ->]. exists c1. reflexivity. }
+    { cbn [fst snd]. repeat split; auto. destruct RR as [c1 [n1 ->]]. exists c1, n1. reflexivity. }
     assert (R2 : R (if spf =? fr then s else add_roots s spf e) (if spf =? fr then s0 else add_roots s0 spf e)).
-    { destruct RR as [c1 ->]. destruct (spf =? fr); exists c1; reflexivity. }
+    { destruct RR as [c1 [n1 ->]]. destruct (spf =? fr); exists c1, n1; reflexivity. }
     assert (Ca : coh (if spf =? fr then s else add_roots s spf e)).
     { destruct (spf =? fr); first [exact C | (intros a b r G; eapply C; eauto)]. }
     assert (Cb : coh (if spf =? fr then s0 else add_roots s0 spf e)).
@@ -211,7 +212,7 @@ Proof.
     destruct (handle_election cap end_block _ es (if spf =? fr then s0 else add_roots s0 spf e) e (spf + 1) []) as [[r2 b2] t2].
     destruct D as (D1&D2&D3&D4&D5). cbn [fst snd] in *. subst r2 b2.
     destruct r1; cbn [fst snd]; auto.
-  - cbn [fst snd]. repeat split; auto. destruct RR as [c1 ->]. exists c1. reflexivity.
+  - cbn [fst snd]. repeat split; auto. destruct RR as [c1 [n1 ->]]. exists c1, n1. reflexivity.
 Qed.
 
 End Transparent.
